@@ -181,7 +181,7 @@ def value_class(kind: str, v, build: Optional[Build] = None, type_name: Optional
         if math.isinf(v):
             return "inf"
         if v == 0:
-            return "zero"
+            return "negative-zero" if is_negzero(v) else "zero"
         return "finite"
     if isinstance(v, (str, bytes)):
         return "empty" if len(v) == 0 else "nonempty"
@@ -371,13 +371,16 @@ def norm_leaf(kind: str, v):
     if kind == "float" and isinstance(v, float):
         if math.isnan(v):
             return NAN
-        v = f32(v)
-        return 0.0 if v == 0 else v
+        return f32(v)  # the sign of a zero is kept: -0.0 is a value of its own (other bytes, not the default)
     if kind == "double" and isinstance(v, float):
         if math.isnan(v):
             return NAN
-        return 0.0 if v == 0 else v
+        return v
     return v
+
+
+def is_negzero(v) -> bool:
+    return isinstance(v, float) and v == 0 and math.copysign(1.0, v) < 0
 
 
 def default_of(fi: FieldInfo):
@@ -409,7 +412,7 @@ def canon(build: Build, mi: MsgInfo, tree: dict) -> dict:
                 if fi.wkt is None:
                     v = canon(build, build.msgs[fi.type_name], v)
             else:
-                if v == default_of(fi) and v != NAN:
+                if v == default_of(fi) and v != NAN and not is_negzero(v):
                     continue
         elif fi.label in ("optional", "oneof"):
             if fi.kind == "message" and fi.wkt is None:
@@ -728,7 +731,7 @@ class BP:
                         problems.append((p, "none-for-singular-scalar"))
                         continue
                     nv = self.norm_leaf(fi, v, problems, p)
-                    if nv == default_of(fi):
+                    if nv == default_of(fi) and not is_negzero(nv):
                         continue
                     out[fi.number] = nv
         return out
@@ -827,7 +830,7 @@ class REF:
                     out[fi.number] = norm_leaf(fi.kind, getattr(m, fi.name))
                 else:
                     nv = norm_leaf(fi.kind, getattr(m, fi.name))
-                    if nv == default_of(fi):
+                    if nv == default_of(fi) and not is_negzero(nv):
                         continue
                     out[fi.number] = nv
         return out
@@ -906,7 +909,7 @@ def _diff_leaf(build, mi, fi, x, y, p, outer=None) -> List[Diff]:
     if type(x) is not type(y) and not (isinstance(x, (int, float)) and isinstance(y, (int, float))
                                         and not isinstance(x, bool) and not isinstance(y, bool)):
         return [Diff(p, outer or fi, "type", x, y, mi)]
-    if x != y:
+    if x != y or is_negzero(x) != is_negzero(y):
         return [Diff(p, outer or fi, "value", x, y, mi)]
     return []
 
